@@ -38,6 +38,22 @@ CHECKS = {
          "Whole-program equivalence is not decided. Decided, for every path of the code that implements them: the combine / implicit-Normal / yield-freeness tables of the block abstraction; the break/continue pass against the Go spec's target rule for every nesting of native contexts up to depth 3; the termination checker never over-approximates the spec's 'terminating statements' on ~2000 enumerated shapes; Loop/While/For choice and argument roles; the lowering of every break/continue target agrees with the signal tables extracted from the runtime in the same run; plus the runtime tables of C08.",
          "Known findings D18 (break after a yield inside a switch case) and D19 (continue with a yielding for-post) are recorded in known_findings.json; Go closure semantics, go/ssa and go/ast grammar facts are trusted.",
          "DESIGN.md §4 C01"),
+ "C03": ("template extraction by abstract interpretation (constructed AST as heap tree with holes) + scoping obligations on the templates",
+         "Decides the structural conditions of 'same variable as in the source': continuation nested in the Bind thunk; combine only after statements with their own scope; ':=' initialisers of for/switch/type-switch hoisted into a fresh block (inside generators only), never moved otherwise; ':=' range bodies nested as one block after the generated binding, with the loop's own token; both halves of a Combine are thunks; iterator temporaries from gensym.",
+         "Go's capture-by-reference is trusted; known findings D15 (consumer loop body spliced) and D23 (yielding post appended to the body's block) are recorded.",
+         "DESIGN.md §4 C03"),
+ "C04": ("template extraction for every variable form x token; dispatch table by operand kind cross-checked with seq's constructor signatures; iterator induction (C10)",
+         "Decides: operand evaluated once before the loop, key/value/token mapping for all 18 variable forms, ':=' body nesting, gensym'd iterator; operand kind -> constructor table vs Go's range table and the constructors' parameter kinds; traversal enters nested closures; plus the iterators' inductive facts of C10 re-established in the same run.",
+         "Known findings D16 (array operands sliced in place) and D21 (non-int integer operands) are recorded; element-level equality is C10's scope.",
+         "DESIGN.md §4 C04"),
+ "C05": ("template extraction of the YieldFrom and consumer-loop lowerings for every operand form; pass-order path rule on rewriteFile; runtime tables",
+         "Decides: YieldFrom(x) becomes exactly `for v := range x { Yield(v) }` with x once; the consumer lowering evaluates the delegate once, advances once per iteration, reads once per iteration; the passes run YieldFrom -> range-over-iterator -> generator bodies; the statements after the delegation run only after exhaustion by SEQ.FOR/SEQ.COMBINE.",
+         "Behaviour under deep recursion follows from C17/C08's rules; D15 recorded.",
+         "DESIGN.md §4 C05"),
+ "C06": ("template extraction of rewriteForRange / rewriteIter / result type; pass-order rule",
+         "Decides: consumer loops evaluate their operand exactly once, pull exactly one element per iteration in the loop condition (no prefetch), bind with the loop's own ':='/'=' token; the iterator type is replaced iff the iterator predicate holds, uniformly by seq.Iterator[T] under the file's import name.",
+         "Completeness of the type replacement in every syntactic position shows as a build error and is not decided; D15 recorded.",
+         "DESIGN.md §4 C06"),
 }
 
 NOT_APPLICABLE = {
